@@ -79,7 +79,7 @@ CHECKS = {
         text="Request lifecycle: Switchover.tla (Start/Fail/Finish/Reject, attempt counter, limit) is model-checked with "
              "C06_SuccessMeansDone / C06_BoundedAttempts; the real stateManager runs 40-round histories on the fakes for "
              "every request kind x failure variant x limit x timeout, each request identity is digested from the recorded "
-             "trace and TLC judges the eight C06 clauses on it (ReqRows.tla).",
+             "trace and TLC judges the eight C06 clauses on it (ReqRows.tla). Liveness: under weak fairness of the manager's actions a planned request is eventually removed (Switchover.tla LiveSpec, C06_PlannedResolved, TLC temporal checking). A scenario in which the real manager never returns from an activation (real-time watchdog of the driver, goroutine dump) is reported as C06_ManagerNeverStuck.",
         design_ref="DESIGN.md 7/C06",
         note="manager's coordination calls succeed (C07 covers the rest); CLI initiators emulated by create-if-absent writes",
         technique="TLA+ lifecycle model (TLC) + TLC validation of request histories recorded from real code"),
@@ -165,7 +165,7 @@ CHECKS = {
              "choice; TLC checks the transcription against the clauses on all lists of <=3 positions over a grid, then "
              "judges the real filterOutNodeFromPositions+getMostDesirableNode on all lists of 0-2 and random lists of 3-5 "
              "positions (priorities, lags around the bound incl. unknown, chain/incomparable GTID sets, excluded host); "
-             "non-termination is caught by a watchdog / crash attribution.",
+             "non-termination is caught by a watchdog / crash attribution. The call sites are bound as well: rows through getMostDesirableReplicaToOptimize (its own bound), and cluster runs with different priorities and an unreadable priority record (PrioRows.tla, C14_PriorityAtCallSite).",
         design_ref="DESIGN.md 7/C14",
         note="TLC; non-negative bounds; call sites are covered by the cluster properties",
         technique="TLA+ clause spec + algorithm model (TLC exhaustive); real outputs validated by TLC"),
@@ -230,7 +230,7 @@ CHECKS = {
              "the fakes): each action is followed by two rounds of every loop of every live process, then the final state is "
              "held for 68 rounds while goroutines and open connections are counted. Rows (recovered panics, leak counters) are "
              "judged by TLC (RobustRows.tla); a panic in a goroutine spawned by mysync kills the driver and is attributed to the "
-             "behaviour; the loops of one process are additionally run concurrently under the Go race detector.",
+             "behaviour; the loops of one process are additionally run concurrently under the Go race detector. Error paths: repeated failing SetReadOnlyWithForce calls must leave no goroutine behind (C20_NoLeakOnErrorPath).",
         design_ref="DESIGN.md 7/C20",
         note="Go race detector as monitor for the race clause; leak = sustained growth over three windows; 11 genuine defects "
              "repaired (fix: commits), see known_findings.jsonl",
